@@ -769,3 +769,38 @@ func isAtomicBool(t types.Type) bool {
 	n, ok := t.(*types.Named)
 	return ok && n.Obj().Pkg() != nil && n.Obj().Pkg().Path() == "sync/atomic" && n.Obj().Name() == "Bool"
 }
+
+func init() {
+	lockCtl := func(c *Ctx, r *Report, prop string) {
+		li := analyseLocks(c, "cserver", "Srv")
+		tmp := newReport(prop, "quick")
+		lockLeakRule(c, tmp, li, "ctl", "Srv")
+		leaky, tidyBad := false, false
+		for _, it := range tmp.items {
+			if !it.OK && strings.Contains(it.Construct, "LeakyClose") {
+				leaky = true
+			}
+			if !it.OK && !strings.Contains(it.Construct, "LeakyClose") {
+				tidyBad = true
+			}
+		}
+		r.controls[prop+"/lock-leak-fires"] = leaky
+		r.controls[prop+"/lock-leak-negative-control-silent"] = !tidyBad
+	}
+	for _, p := range []string{"C08", "C14", "C17"} {
+		prop := p
+		prev := controls[prop]
+		controls[prop] = func(c *Ctx, r *Report) {
+			if prev != nil {
+				prev(c, r)
+			}
+			lockCtl(c, r, prop)
+			if prop == "C17" {
+				good := c17ShutdownScan(c, nil, c.fnMust("cserver", "*Srv.GoodShutdown"), true)
+				r.controls["C17/R17.8-negative-control-silent"] = len(good) == 0
+				r.controls["C17/R17.8-flag-raised-in-scan"] = c17ShutdownScan(c, nil, c.fnMust("cserver", "*Srv.BadShutdownFlag"), true)["flag-raised-in-scan"]
+				r.controls["C17/R17.8-closes-inflight"] = c17ShutdownScan(c, nil, c.fnMust("cserver", "*Srv.BadShutdownCloses"), true)["closes-inflight"]
+			}
+		}
+	}
+}
